@@ -1,6 +1,8 @@
 (* C03 — the restructured graph is structured. *)
 From Coq Require Import ZArith List.
 From V Require Import Valid.Hier Valid.FlatRegion Valid.Struct Valid.Run.
+From Coq Require Import Lia.
+From V Require Import Model.Pipe Model.PipeBounded Model.PipeBounded4.
 
 Theorem C03_checker_sound :
   forall h rkl rkf, struct_check true h rkl rkf = true -> Structured h.
@@ -26,3 +28,17 @@ Proof.
   split; assumption.
 Qed.
 Print Assumptions C03_driver_columns.
+
+(* bounded form over the MODEL of the whole pipeline *)
+Theorem C03_pipeline_model_le4 :
+  forall n g, (n <= 4)%nat -> In g (closed_graphs n) ->
+    exists s0 s1 s2,
+      p_stage nmU 0 (init_state g) topU = POk s0 /\ p_stage nmU 1 s0 topU = POk s1 /\
+      p_stage nmU 2 s1 topU = POk s2 /\
+      LoopStructured (to_hier s1 topU) /\ Structured (to_hier s2 topU).
+Proof.
+  intros n g Hn Hin. destruct (pipeline_good_le4 n g Hn Hin) as [s0 [s1 [s2 [A0 [B0 [A1 [B1 [A2 B2]]]]]]]].
+  exists s0, s1, s2. split; [exact A0|]. split; [exact A1|]. split; [exact A2|].
+  split; [apply B1; reflexivity|apply B2; reflexivity].
+Qed.
+Print Assumptions C03_pipeline_model_le4.
